@@ -33,6 +33,18 @@ def _spine(prop, tier):
     return ("jobs_misc", "spine_job", dict(prop=prop, max_level=12 if tier == "quick" else 16))
 
 
+def _heads(prop, tier):
+    """Raw inputs = 1..33 symbolic bytes ++ opaque body, through both byte-level entry points of the
+    six taggable types: every tag-head encoding and every impossible first byte."""
+    jobs = []
+    for t in ("CoseSign", "CoseSign1", "CoseMac", "CoseMac0", "CoseEncrypt", "CoseEncrypt0"):
+        top = {"CoseMac": 5, "CoseEncrypt0": 3}.get(t, 4)
+        pol = dict(max_array=top, max_nested_array=2, max_map=0, max_text=1, max_depth=3, max_total_entries=0,
+                   max_total_items=top + (1 if tier == "quick" else 3))
+        jobs.append(("jobs_misc", "head_job", dict(prop=prop, tname=t, policy=pol)))
+    return jobs
+
+
 def _dj(prop, tname, pol, kinds=(), tag=""):
     return ("jobs_decode", "decode_job", dict(prop=prop, tname=tname, policy=pol, kinds=kinds, tag=tag))
 
@@ -270,6 +282,7 @@ def c13(tier):
         if t == "CoseKdfContext":
             p.update(max_map=0, max_total_entries=0)
         jobs.append(("jobs_misc", "api_job", dict(prop="C13", tname=t, policy=p)))
+    jobs += _heads("C13", tier)
     return jobs
 
 
@@ -283,6 +296,7 @@ def c14(tier):
     # repeated here with a top-level item that may be a tag
     pol2 = dict(max_array=5, max_nested_array=3, max_map=0, max_text=1, max_depth=3, max_total_entries=0, max_total_items=8)
     jobs += [_dj("C14", t, pol2, tag=":untagged") for t in STRUCTS]
+    jobs += _heads("C14", tier)
     return jobs
 
 
@@ -329,4 +343,10 @@ def c01(tier):
 def c19(tier):
     import jobs_builder
     steps = 3 if tier == "quick" else 4
-    return [("jobs_builder", "builder_job", dict(prop="C19", tname=t, steps=steps)) for t in sorted(jobs_builder.SPECS)]
+    jobs = [("jobs_builder", "builder_job", dict(prop="C19", tname=t, steps=steps)) for t in sorted(jobs_builder.SPECS)]
+    # the create / try-create helpers are builder methods too: their documented effect (the creator is
+    # called once with the RFC structure of the current state, its output is stored, its error returned)
+    jobs += [("jobs_struct", "history_job", dict(prop="C19", tname=t, steps=2 if tier == "quick" else 3, palette=(0, 3),
+                                                  classes=("create", "try", "refusal", "panic")))
+             for t in ("CoseSign1", "CoseSign", "CoseMac0", "CoseMac", "CoseEncrypt0", "CoseEncrypt", "CoseRecipient")]
+    return jobs
